@@ -109,15 +109,50 @@ fn cross_process(ctx: &Ctx, specs: &[Spec], nproc: usize, sub: &str) {
             }
         }
     }
+    // one more process: the same specs computed by the probe linked against the crate built WITHOUT the verification feature
+    // (the hooks are additive accessors: no sketch may depend on them)
+    let exe = verif_root().join("nohooks/target/release/pmh-nohooks");
+    match run_child_exe(&exe, "c12", &input, std::time::Duration::from_secs(600), &[]) {
+        ChildOutcome::Done(v) => {
+            let outs: Vec<Vec<u64>> = serde_json::from_value(v["outs"].clone()).unwrap_or_default();
+            if outs.len() != specs.len() {
+                ctx.infra("hooks-off child returned a truncated batch");
+                return;
+            }
+            let recycled: Vec<Vec<u64>> = serde_json::from_value(v["recycled"].clone()).unwrap_or_default();
+            for (i, s) in specs.iter().enumerate() {
+                if outs[i] != here[i] {
+                    ctx.violation(sub, s, &format!("{}: the crate built without the verif-hooks feature gives a different sketch than the crate built with it ({})", s.type_name(), describe_diff(&here[i], &outs[i])));
+                    return;
+                }
+                if recycled.len() == specs.len() && recycled[i] != here[i] {
+                    ctx.violation(sub, s, &format!("{}: built without the verif-hooks feature, an instance that was used before and reset gives a different sketch than a new instance of the build with the feature ({})", s.type_name(), describe_diff(&here[i], &recycled[i])));
+                    return;
+                }
+            }
+        }
+        ChildOutcome::Crashed(w, e) => {
+            ctx.infra(format!("C12 hooks-off child crashed ({}): {}", w, e));
+            return;
+        }
+        ChildOutcome::Timeout => {
+            ctx.infra("C12 hooks-off child timed out");
+            return;
+        }
+        ChildOutcome::Infra(e) => {
+            ctx.infra(e);
+            return;
+        }
+    }
     for s in specs {
-        ctx.record(sub, s, &Report::new(s.input_len() >= 2).class(s.type_name()).class(format!("{}-child-processes", nproc)), true);
+        ctx.record(sub, s, &Report::new(s.input_len() >= 2).class(s.type_name()).class(format!("{}-child-processes+hooks-off-build", nproc)), true);
     }
 }
 
 pub fn run(ctx: &Ctx) {
     ctx.set_rule("proptest generates a computation spec for every sketcher type of the crate (ProbMinHash2/3/3a/3aSha over u64 and String keys with every entry point incl. std HashMap, SuperMinHash f64/f32, SuperMinHash2 u64/u32, SetSketch u16/u32, \
         OptDens/RevOptDens f64/f32, ProbOrdMinHash2 with FNV/WyHash) with parameters and input. Oracle: the bit pattern of all sketch views is identical for (i) two new instances in one thread and an instance that was used before and reset, (ii) 16 new instances started together behind a barrier in 16 threads, \
-        (iii) new instances in freshly started child processes (new address space layout, new RandomState keys, new ThreadRng; the first child runs with the log level raised to Trace, so that every log statement's arguments are evaluated); sub-check hashmap-instances: the std-HashMap entry points only, eight instances each fed a new map of the same content (own RandomState, own iteration order). Non-trivial = input of at least 2 items. Distinct = distinct serialised spec.");
+        (iii) new instances in freshly started child processes (new address space layout, new RandomState keys, new ThreadRng; the first child runs with the log level raised to Trace, so that every log statement's arguments are evaluated; one more child is a probe linked against the crate built WITHOUT the verif-hooks feature); sub-check hashmap-instances: the std-HashMap entry points only, eight instances each fed a new map of the same content (own RandomState, own iteration order). Non-trivial = input of at least 2 items. Distinct = distinct serialised spec.");
     ctx.assume("the harness does not own the scheduler: thread interleavings are sampled; the sketchers share no mutable state, what is hunted is hidden per-instance / per-thread / per-process input");
     super::run_fixed_tier(ctx, replay);
     let (cases, max_m, max_n) = ctx.tier.pick((6_000, 128, 300), (120_000, 512, 2000));
